@@ -147,6 +147,8 @@ def run(ctx: core.Ctx):
                              note="robust result must not depend on the nodata placeholder (finite, NaN or infinite)")
                     break
 
+    from .. import accessor_args
+    accessor_args.nodata_precedence(ctx, ['whitswcv', 'whitswcv_p'])
     # accessor defaults (srange arange(-1.8,4.2,.2), robust=True)
     for k in range(ctx.budget(3, 20)):
         nt = rng.choice([12, 36])
